@@ -457,6 +457,13 @@ def gen_cases(rng, tier):
     cases.append({'kind': 'J', 'timeout': timeout, 'interval': r.choice([1, 3, 4, 16, 50]),
                   'd': r.choice([None] + list(range(0, timeout + 60))), 'h': r.choice([0, 0, 1, 3, 9]),
                   'rseed': r.getrandbits(32), 'switch': 0.3})
+  # the body returns exactly at a poll instant at / after the deadline: the executor's "still alive -> kill" and the
+  # thread's exit race under many schedules (a kill that finds the thread gone must have no effect at all)
+  for i in range(150 if quick else 3000):
+    r = rng.derive('jr%d' % i)
+    timeout, interval = r.choice([(16, 4), (16, 16), (8, 4), (4, 4)])
+    cases.append({'kind': 'J', 'timeout': timeout, 'interval': interval, 'd': timeout + r.choice([0, 0, 0, interval]),
+                  'h': r.choice([0, 0, 1]), 'rseed': r.getrandbits(32), 'pct': r.choice([2, 3, 3, 4]), 'horizon': r.choice([60, 150, 400])})
   # G: a timed-out phase at every position
   T = lambda i: _P(i, 'timeout')
   G = lambda s, m, td: {'t': 'G', 's': s, 'm': m, 'td': td}
